@@ -4,7 +4,7 @@
    Reachable pools: any sequence of submissions, administrative requests, Update calls, commits
    (new account nonces followed by updateToState) and flushes, from an empty pool. *)
 From Coq Require Import List NArith ZArith Lia Bool.
-From AnnVerif Require Import Base.Res Model.TxPool Proofs.PoolProofs.
+From AnnVerif Require Import Base.Res Model.TxPool Proofs.PoolProofs Proofs.MemRaceProofs.
 Import ListNotations.
 Open Scope N_scope.
 
@@ -78,4 +78,22 @@ Example c19_nonvacuous :
               PCommit [(1, 2)]] in
   let '(ns, p) := prun 10 10 [] ops in
   snd (reap_all p) = [(1, [mkTx 1 2 12]); (2, [mkTx 2 0 20])] /\ nonce_of ns 1 = 2.
+Proof. vm_compute. split; reflexivity. Qed.
+
+(* (6) gemmill/mempool under concurrent submitters: ReceiveTx holds no lock between its first lookup
+   in the cache and the test-and-set that records the transaction; for EVERY interleaving of the
+   lookups and pushes of any number of goroutines with the updates of the consensus routine the
+   pool invariant holds, and between two updates a transaction is accepted at most once however
+   many goroutines hand it in at the same moment (the engine's "race" operations run exactly the
+   schedule in which all of them pass the lookup before any of them pushes) *)
+Theorem c19_mempool_any_schedule : forall evs m, mem_inv m -> mem_inv (mev_run evs m).
+Proof. exact mem_inv_any_schedule. Qed.
+Print Assumptions c19_mempool_any_schedule.
+Theorem c19_mempool_accepted_at_most_once :
+  forall x evs m, forallb (fun e => negb (is_update e)) evs = true -> (accepted x evs m <= 1)%nat.
+Proof. exact accepted_at_most_once. Qed.
+Print Assumptions c19_mempool_accepted_at_most_once.
+Example c19_mempool_race_nonvacuous :
+  let evs := [MLookup 7; MLookup 7; MLookup 7; MPush 7; MPush 7; MPush 9; MPush 7]%N in
+  accepted 7%N evs (mkMem [] []) = 1%nat /\ m_txs (mev_run evs (mkMem [] [])) = [7; 9]%N.
 Proof. vm_compute. split; reflexivity. Qed.
